@@ -111,6 +111,14 @@ def stepWith (which : Which) (d : DSt) (fields : List String) (impl : String) : 
   | "setinbound" :: [n] =>
     -- the harness sets Session.SMState.Inbound directly (stanzas received meanwhile); no session, no effect
     ((if d.sess.present then { d with sess := { d.sess with inbound := n.toNat?.getD 0 } } else d), .det "ok" impl true true)
+  | ["wsconn", _] =>
+    -- `WS://…`: not a WebSocket address for the constructors (Model.C20.isWs is case-sensitive): the XMPP transport
+    -- cannot dial it, nothing is written; whatever happens, nothing sensitive goes out in clear
+    let ms := "out=failed:false w="
+    let okI := match parseImpl impl with
+      | some o => !o.crashed && gateOk d.cfg o.writes
+      | none => false
+    (d, ⟨ms, ms == impl, true, okI, "-"⟩)
   | ["wsconn"] =>
     -- Client.connect over a plain ws:// transport, the server answering every step: the gate decides
     let ws := Model.C04.wsWrites d.cfg.insecure false
